@@ -599,7 +599,7 @@ func eqFoldLabels(a, b any) bool {
 	return true
 }
 
-func usable(s stackage.Stack) (msg string) {
+func usable(s stackage.Stack, twin ...stackage.Stack) (msg string) {
 	defer func() {
 		if r := recover(); r != nil {
 			msg = "PANIC after Marshal: " + fmt.Sprint(r)
@@ -609,6 +609,10 @@ func usable(s stackage.Stack) (msg string) {
 	_, _ = s.Unmarshal()
 	_ = s.IsEqual(s)
 	_ = s.IsEqual(stackage.And().Push("zz"))
+	for _, t := range twin { // an independent second decode of the same input: the comparison walks every element
+		_ = s.IsEqual(t)
+		_ = t.IsEqual(s)
+	}
 	return "ok"
 }
 
@@ -663,7 +667,16 @@ func init() {
 			out["contract"] = "neither an error nor an initialised receiver"
 		}
 		if rec.IsInit() {
-			out["total"] = usable(rec)
+			var twin stackage.Stack
+			if a["recv"] == "live" {
+				twin = stackage.And().Push("r0")
+			}
+			if form == "single" || !isSeq {
+				_ = twin.Marshal(BuildU(in))
+			} else if us2, ok := BuildU(in).([]any); ok {
+				_ = twin.Marshal(us2...)
+			}
+			out["total"] = usable(rec, twin)
 			out["struct"] = ProjectStruct(rec)
 		} else {
 			out["struct"] = Node{"t": "nil"}
